@@ -1016,6 +1016,11 @@ THEOREMS = [
     "C08.rotate_equivariant_rect_spec",
     "C08.rotate_equivariant_ellipse_spec",
     "C08.rotate_equivariant_ellipse",
+    "C08.evenodd_direction_independent",
+    "C08.rotate_equivariant_polygon_spec",
+    "C08.rotate_equivariant_polygon",
+    "C08.rotateTo_polygon",
+    "C08.polygon_band_contains_boundary",
     "C08.copy_same",
     "C08.params_roundtrip",
     "C08.restore_same",
